@@ -121,7 +121,11 @@ static double cpuS()
 	return t.tv_sec + t.tv_nsec * 1e-9;
 }
 static void removeFiles();
+#if defined(__SANITIZE_ADDRESS__)
 extern "C" void __sanitizer_set_death_callback(void (*callback)(void));
+#else
+static void __sanitizer_set_death_callback(void (*)(void)) {}   // production-build pass: no sanitizer runtime
+#endif
 
 static void* watchdog(void*)
 {
